@@ -1148,3 +1148,84 @@ def ctrl11(ctx) -> List[Ob]:
                            f"the guard of the {kind}-arc can hold without {sorted(need)[0]} (when {' and '.join(lacking[0])}): the value looked up for {arc} is not in the table (reverse lookup yields -1) and the arc is rerouted although it is no {kind} arc",
                            [f"guard: {A.unparse(guard)[:100]}"]))
     return out
+
+
+# ------------------------------------------------------------------ CTRL-12
+
+
+def _is_table_expr(ctx, fn, e: ast.AST) -> bool:
+    """e denotes a block's value table: `<x>.branch_value_table` or a local bound to one"""
+    from .common import see_through
+
+    e = see_through(ctx, fn, e) or e
+    return isinstance(e, ast.Attribute) and e.attr == "branch_value_table"
+
+
+@rule("CTRL-12", 2, "a value table is many-to-one (several control values select the same target): it is never inverted into a plain target -> value mapping, and grouping its entries by target collects all values of a target")
+def ctrl12(ctx) -> List[Ob]:
+    out: List[Ob] = []
+    for fn in ctx.prog.functions:
+        for n in A.walk_no_nested(fn.node):
+            # ---- iterations over <table>.items()
+            gens = []
+            if isinstance(n, ast.For):
+                gens = [(n.target, n.iter, n)]
+            elif isinstance(n, (ast.DictComp, ast.ListComp, ast.SetComp, ast.GeneratorExp)):
+                gens = [(g.target, g.iter, n) for g in n.generators]
+            for tgt, it, holder in gens:
+                if not (isinstance(it, ast.Call) and isinstance(it.func, ast.Attribute) and it.func.attr == "items" and _is_table_expr(ctx, fn, it.func.value)):
+                    continue
+                if not (isinstance(tgt, ast.Tuple) and len(tgt.elts) == 2 and all(isinstance(x, ast.Name) for x in tgt.elts)):
+                    continue
+                kv, vv = tgt.elts[0].id, tgt.elts[1].id  # control value, target
+                key = "iteration over a value table: " + A.alpha_key(it)
+                where = ctx.where(fn, holder)
+                inverted = None
+                if isinstance(holder, ast.DictComp) and A.unparse(holder.key) == vv and kv in A.names_in(holder.value):
+                    inverted = f"{{{vv}: {kv} for ...}}"
+                elif isinstance(holder, (ast.ListComp, ast.GeneratorExp, ast.SetComp)) and isinstance(holder.elt, ast.Tuple) and len(holder.elt.elts) == 2 and A.unparse(holder.elt.elts[0]) == vv and A.unparse(holder.elt.elts[1]) == kv:
+                    par = A.parent(holder)
+                    if isinstance(par, ast.Call) and isinstance(par.func, ast.Name) and par.func.id == "dict":
+                        inverted = f"dict(({vv}, {kv}) for ...)"
+                elif isinstance(holder, ast.For):
+                    for st in A.walk_no_nested(ast.Module(holder.body, [])):
+                        if isinstance(st, ast.Assign) and len(st.targets) == 1 and isinstance(st.targets[0], ast.Subscript) and A.unparse(st.targets[0].slice) == vv and A.unparse(st.value) == kv:
+                            inverted = A.unparse(st)
+                if inverted:
+                    out.append(bad("CTRL-12", fn.qualname, key, where, f"the value table is inverted into a plain mapping ({inverted[:50]}): when several control values select one target (unified headers entered over several arcs, loops left from several places to one block) all but the last are lost"))
+                else:
+                    out.append(ok("CTRL-12", fn.qualname, key, where, "entries are copied / aggregated per target, not inverted"))
+            # ---- dict(zip(T.values(), T.keys())) and friends
+            if isinstance(n, ast.Call) and isinstance(n.func, ast.Name) and n.func.id == "dict" and len(n.args) == 1:
+                a0 = n.args[0]
+                if isinstance(a0, ast.Call) and isinstance(a0.func, ast.Name) and a0.func.id == "zip" and len(a0.args) == 2:
+                    x, y = a0.args
+                    if all(isinstance(z, ast.Call) and isinstance(z.func, ast.Attribute) for z in (x, y)) and x.func.attr == "values" and y.func.attr == "keys" and _is_table_expr(ctx, fn, x.func.value):
+                        out.append(bad("CTRL-12", fn.qualname, "dict(zip(values, keys)) of a value table", ctx.where(fn, n), "the value table is inverted into a plain mapping: control values that share a target are lost"))
+                if isinstance(a0, ast.Call) and isinstance(a0.func, ast.Name) and a0.func.id == "map" and len(a0.args) == 2 and A.unparse(a0.args[0]) == "reversed":
+                    z = a0.args[1]
+                    if isinstance(z, ast.Call) and isinstance(z.func, ast.Attribute) and z.func.attr == "items" and _is_table_expr(ctx, fn, z.func.value):
+                        out.append(bad("CTRL-12", fn.qualname, "dict(map(reversed, items)) of a value table", ctx.where(fn, n), "the value table is inverted into a plain mapping: control values that share a target are lost"))
+            # ---- itertools.groupby over table entries needs the entries sorted by the grouping key
+            if isinstance(n, ast.Call) and (A.dotted(n.func) or "").split(".")[-1] == "groupby" and n.args:
+                src = n.args[0]
+                gkey = kw(n, "key", 1)
+                mentions = any(isinstance(x, ast.Attribute) and x.attr == "branch_value_table" for x in ast.walk(src))
+                if not mentions and isinstance(src, ast.Name):
+                    from .common import see_through
+
+                    sv = see_through(ctx, fn, src)
+                    mentions = sv is not None and any(isinstance(x, ast.Attribute) and x.attr == "branch_value_table" for x in ast.walk(sv))
+                    src = sv if mentions else src
+                if mentions:
+                    skey = None
+                    sorted_call = src if isinstance(src, ast.Call) and isinstance(src.func, ast.Name) and src.func.id == "sorted" else None
+                    if sorted_call is not None:
+                        skey = kw(sorted_call, "key")
+                    same = sorted_call is not None and gkey is not None and skey is not None and A.alpha_key(skey) == A.alpha_key(gkey)
+                    key = "groupby over value-table entries"
+                    if same:
+                        out.append(ok("CTRL-12", fn.qualname, key, ctx.where(fn, n), "entries are sorted by the grouping key: one group per target"))
+                    else:
+                        out.append(bad("CTRL-12", fn.qualname, key, ctx.where(fn, n), "groupby merges only adjacent entries and the entries are not sorted by the grouping key: a target selected by non-adjacent control values gets several groups (its region is generated twice / its row is split)"))
+    return out
